@@ -242,18 +242,13 @@ func checkLimitEntry(r *engine.Run, route limitEntryRoute, direct callForm, L, d
 		exp = "err:RangeError: " + overflowMsg
 	}
 	sc, lb := otto.VerifRestState(vm)
-	obs := fmt.Sprintf("entry=%s; rest=scopes=%d labels=%d", opRes, sc, lb)
+	obs := fmt.Sprintf("entry=%s; rest=scopes=%d labels=%d%s", opRes, sc, lb, evalLeak(otto.VerifEvalDepth(vm)))
 	exp = fmt.Sprintf("entry=%s; rest=scopes=0 labels=0", exp)
 
 	// afterwards the runtime behaves like a fresh one with the same limit
 	probe := func(src string) string {
 		o := guarded(func() (otto.Value, error) { return vm.Run(src) })
-		s2, l2 := otto.VerifRestState(vm)
-		res := o.outcome(nil)
-		if s2 != 0 || l2 != 0 {
-			res += fmt.Sprintf(" [rest scopes=%d labels=%d]", s2, l2)
-		}
-		return res
+		return o.outcome(nil) + restSuffix(vm)
 	}
 	obs += "; then 1+1=" + probe(`1 + 1`)
 	exp += "; then 1+1=ok:d:2"
